@@ -245,6 +245,17 @@ where
     }
 }
 
+/// A receiver in transport, borrowed from the receiver being serialized.
+///
+/// Must serialize exactly like [TransportedReceiver].
+#[derive(Serialize)]
+#[serde(rename = "TransportedReceiver")]
+#[serde(bound(serialize = "Codec: codec::Codec"))]
+struct TransportedReceiverRef<'a, Codec> {
+    bin_receiver: &'a bin::Receiver,
+    size: &'a SizeInfo<Codec>,
+}
+
 impl<Codec> Serialize for Receiver<Codec>
 where
     Codec: codec::Codec,
@@ -253,19 +264,19 @@ where
     where
         S: serde::Serializer,
     {
-        let bin_receiver =
-            self.bin_receiver.lock().unwrap().take().ok_or_else(|| {
-                serde::ser::Error::custom("cannot serialize: channel already connected or closed")
-            })?;
+        // The receiver may be serialized more than once for a single transfer (buffered attempt
+        // followed by streaming), thus serialization must not consume its contents.
+        let bin_receiver = self.bin_receiver.lock().unwrap();
+        let bin_receiver = bin_receiver.as_ref().ok_or_else(|| {
+            serde::ser::Error::custom("cannot serialize: channel already connected or closed")
+        })?;
 
-        let size = self
-            .size_info
-            .lock()
-            .unwrap()
-            .take()
+        let size = self.size_info.lock().unwrap();
+        let size = size
+            .as_ref()
             .ok_or_else(|| serde::ser::Error::custom("cannot serialize: size info already consumed"))?;
 
-        TransportedReceiver::<Codec> { bin_receiver, size }.serialize(serializer)
+        TransportedReceiverRef::<Codec> { bin_receiver, size }.serialize(serializer)
     }
 }
 
